@@ -80,6 +80,7 @@ func (s *TcpServer) serve(ln net.Listener) {
 
 		// check if we should exit
 		if s.testShouldExit() {
+			conn.Close() // accepted, but neither handed off nor owned by anybody: do not leave the client hanging
 			return
 		}
 
